@@ -1,4 +1,5 @@
 SPEC = dict(
+    aux_kinds=['leaf ', 'branch ', 'part '],   # streams that call unexported helpers directly; skipped (UNAVAILABLE) when those are renamed
     harness="verif_c15",
     model="C15",
     uses_hashes=True,
